@@ -46,6 +46,20 @@ fn c11_xor_reader_any_offset() {
             check(b2 == w2, suite, "C11:position_tracks_consecutive_reads", &format!("key length {} offset {}", klen, off + buf.len() as u64), &hex(&b2), &hex(&w2));
         }
     }
+    // one read call that fills a buffer far larger than any internal buffer (the underlying reader hands over as much as asked
+    // for: scripts and witness items are read with a single read_exact of their whole length)
+    for (klen, off, n) in [(8usize, 0u64, 32_768usize), (8, 5, 32_769), (8, 3, 40_000), (3, 1, 100_000), (64, 7, 1 << 20), (8, (1u64 << 32) - 9, 70_000), (5, 32_760, 65_537)] {
+        cases += 1;
+        let key = rng.bytes(klen);
+        let mut r = XorReader::new(Virt { pos: 0, len: 1 << 34, key: key.clone(), chunk: usize::MAX }, Some(key.clone()));
+        r.seek(SF::Start(off)).unwrap();
+        let mut buf = vec![0u8; n];
+        r.read_exact(&mut buf).unwrap();
+        let bad = (0..n).find(|j| buf[*j] != plain_at(off + *j as u64));
+        check(bad.is_none(), suite, "C11:delivered_bytes_are_the_stream_bytes_at_pos", &format!("key length {} offset {} one read of {} bytes", klen, off, n), &format!("first wrong byte at +{:?}", bad), "plaintext");
+        let mut b2 = vec![0u8; 9]; r.read_exact(&mut b2).unwrap();
+        check(b2 == (0..9u64).map(|j| plain_at(off + n as u64 + j)).collect::<Vec<u8>>(), suite, "C11:position_tracks_consecutive_reads", &format!("key length {} after one read of {} bytes at {}", klen, n, off), &hex(&b2), "plaintext");
+    }
     // no key: identity
     let mut r = XorReader::new(Virt { pos: 0, len: 1 << 20, key: vec![0], chunk: 13 }, None);
     r.seek(SF::Start(1000)).unwrap(); let mut b = vec![0u8; 40]; r.read_exact(&mut b).unwrap();
@@ -75,15 +89,19 @@ fn c12_auxpow_sections() {
         if let Some(t) = thr { versions.extend([t - 1, t, t + 1]); }
         for v in versions {
             let needs = matches!(thr, Some(t) if v >= t);
-            for (sw, n1, n2) in [(false, 0usize, 0usize), (false, 1, 3), (true, 2, 0), (true, 12, 33)] {
+            // (branch lengths up to 300 links: the length is a CompactSize like any other -- 252/253 boundary -- and may be written
+            // in a wider form than needed)
+            for (sw, n1, w1, n2, w2) in [(false, 0usize, 0usize, 0usize, 0usize), (false, 1, 0, 3, 0), (true, 2, 0, 0, 0), (true, 12, 0, 33, 0),
+                                         (false, 252, 0, 253, 0), (true, 300, 0, 1, 0), (false, 2, 3, 1, 5), (true, 0, 9, 7, 3), (false, 253, 5, 0, 3)] {
+                if !needs && (n1 > 33 || w1 + w2 > 0) { continue; }
                 cases += 1;
                 let mut b = BlockSpec::new([4; 32], 99, body.clone());
                 b.version = v;
-                if needs { b.aux = Some(aux_section(&mut rng, sw, n1, n2)); }
+                if needs { b.aux = Some(aux_section_w(&mut rng, sw, n1, w1, n2, w2)); }
                 let raw = b.ser();
                 let mut padded = raw.clone(); padded.extend_from_slice(&[0xEE; 7]);      // bytes of the next record must stay unread
                 let mut cur = std::io::Cursor::new(&padded[..]);
-                let inp = format!("{} version={:#x} aux={} segwit_cb={} branches=({}, {})", coin, v, needs, sw, n1, n2);
+                let inp = format!("{} version={:#x} aux={} segwit_cb={} branches=({}, {}) length-prefix widths=({}, {})", coin, v, needs, sw, n1, n2, w1, w2);
                 let blk = match std::panic::catch_unwind(std::panic::AssertUnwindSafe(|| cur.read_block(raw.len() as u32, &ct))) {
                     Ok(Ok(x)) => x, Ok(Err(e)) => { fail(suite, "C12:auxpow_section_consumed_exactly", &inp, &format!("Err {}", e), "Ok"); continue; }
                     Err(_) => { fail(suite, "C12:auxpow_section_consumed_exactly", &inp, "panic", "Ok"); continue; } };
